@@ -13,6 +13,7 @@ import (
 	"strings"
 	"sync"
 	"time"
+	"unsafe"
 
 	"github.com/go-openapi/runtime"
 )
@@ -199,12 +200,14 @@ func c16Drop(k int, recs [][]Bs) [][]Bs {
 
 // ---------- destinations and sources of the caller ----------
 
-type c16RecWriter struct { // a caller's CSVWriter: keeps a copy of every record
+type c16RecWriter struct { // a caller's CSVWriter: keeps a copy of every record, and the very slice it was handed
 	rows [][]string
+	kept [][]string
 }
 
 func (w *c16RecWriter) Write(r []string) error {
 	w.rows = append(w.rows, append([]string(nil), r...))
+	w.kept = append(w.kept, r)
 	return nil
 }
 func (w *c16RecWriter) Flush()       {}
@@ -372,8 +375,85 @@ func c16RenderFor(st *c16Step, o c16Opts, recs [][]Bs) {
 	st.RT = append(st.RT, c16Render(wc, crlf, recs))
 }
 
-func c16SameBacking(a, b []string) bool {
-	return cap(a) > 0 && cap(b) > 0 && &a[:1][0] == &b[:1][0]
+// c16Overlaps: the backing arrays of a and b, each taken up to its full capacity (not only its length), have a slot in
+// common. Spare capacity counts: it is what a caller's append or reslice writes to.
+func c16Overlaps(a, b []string) bool {
+	if cap(a) == 0 || cap(b) == 0 {
+		return false
+	}
+	sz := unsafe.Sizeof("")
+	a0 := uintptr(unsafe.Pointer(unsafe.SliceData(a)))
+	b0 := uintptr(unsafe.Pointer(unsafe.SliceData(b)))
+	return a0 < b0+uintptr(cap(b))*sz && b0 < a0+uintptr(cap(a))*sz
+}
+
+// c16CrossTalk is the caller's view of the same thing, without looking at addresses: whatever a caller may do to one
+// delivered record (overwrite its fields, append to it, reslice it up to its capacity) must leave every other delivered
+// record reading as before. The rows are put back as they were.
+func c16CrossTalk(rows [][]string) bool {
+	snap := make([][]string, len(rows))
+	for i, r := range rows {
+		snap[i] = append([]string(nil), r...)
+	}
+	othersSame := func(skip int) bool {
+		for k, r := range rows {
+			if k == skip {
+				continue
+			}
+			if len(r) != len(snap[k]) {
+				return false
+			}
+			for j := range r {
+				if r[j] != snap[k][j] {
+					return false
+				}
+			}
+		}
+		return true
+	}
+	talk := false
+	for i, r := range rows {
+		full := r[:cap(r)]
+		keep := append([]string(nil), full...)
+		for j := range full {
+			full[j] = "\x00c16-probe"
+		}
+		_ = append(r, "\x00c16-extra") // lands in slot len(r) of the same array when there is spare capacity
+		if !othersSame(i) {
+			talk = true
+		}
+		copy(full, keep)
+	}
+	return talk
+}
+
+// c16Aliased: some two of these record slices share storage (by address, up to capacity, or as a caller would notice).
+func c16Aliased(rows [][]string) bool {
+	for i := range rows {
+		for j := i + 1; j < len(rows); j++ {
+			if c16Overlaps(rows[i], rows[j]) {
+				return true
+			}
+		}
+	}
+	return c16CrossTalk(rows)
+}
+
+func c16SameRows(a, b [][]string) bool {
+	if len(a) != len(b) {
+		return false
+	}
+	for i := range a {
+		if len(a[i]) != len(b[i]) {
+			return false
+		}
+		for j := range a[i] {
+			if a[i][j] != b[i][j] {
+				return false
+			}
+		}
+	}
+	return true
 }
 
 func c16Consume(in c16In, text string) c16Step {
@@ -477,6 +557,11 @@ func c16Consume(in c16In, text string) c16Step {
 		st.Kind, st.Bytes = "bytes", Bs(buf.String())
 	case "CSVWriter":
 		st.Kind, st.Rows = "recs", c16Rows(recw.rows)
+		// a caller's writer may retain the slices it is handed. Unless the caller asked for ReuseRecord they are its own:
+		// they still read as they did when handed over and no two of them share storage
+		if !o.Reuse {
+			st.Aliased = !c16SameRows(recw.kept, recw.rows) || c16Aliased(recw.kept)
+		}
 	case "readerfrom":
 		st.Kind, st.Bytes = "bytes", Bs(rf.b.String())
 	case "binaryunmarshaler":
@@ -501,12 +586,23 @@ func c16Consume(in c16In, text string) c16Step {
 			}
 		}
 		st.Kind, st.Rows, st.Len, st.Cap = "recs", c16Rows(table), len(table), cap(table)
-		for i := range table {
-			for j := i + 1; j < len(table); j++ {
-				if c16SameBacking(table[i], table[j]) {
-					st.Aliased = true
+		if in.Elem == "" || in.Elem == "named" {
+			// the delivered records belong to the caller: no two of them share storage, up to their full capacity, and
+			// neither do they share any with what a later call (of this consumer or of a new one) delivers or writes
+			delivered := append([][]string(nil), table...)
+			before := c16Strs(st.Rows)
+			all := delivered
+			for _, c := range []runtime.Consumer{cons, runtime.CSVConsumer(c16GoOpts(o)...)} {
+				var later [][]string
+				e2, p2, _, h2 := c16Guard(func() error { return c.Consume(&c16ChunkReader{s: text, chunk: in.Chunk}, &later) })
+				if h2 {
+					break // that call still runs: leave its destination alone
+				}
+				if e2 == nil && !p2 {
+					all = append(all, later...)
 				}
 			}
+			st.Aliased = !c16SameRows(delivered, before) || c16Aliased(all)
 		}
 	case "bytes":
 		st.Kind, st.Bytes = "bytes", Bs(bts)
